@@ -98,7 +98,7 @@ class HeapProxy(object):
         return item
 
 class Reg(object):
-    __slots__ = ('t', 'name', 'args', 'fn', 'state', 'n')
+    __slots__ = ('t', 'name', 'args', 'fn', 'state', 'n', 'fobj')
 
 class Impl(object):
     def __init__(self, P):
@@ -212,7 +212,7 @@ class Impl(object):
     def on_registered(self, name, f, t, args, kwargs):
         reg = Reg()
         reg.t = int(t); reg.name = name; reg.args = canon_args(args, kwargs); reg.fn = self.describe_fn(f)
-        reg.state = 'live'; self.nreg += 1; reg.n = self.nreg
+        reg.state = 'live'; self.nreg += 1; reg.n = self.nreg; reg.fobj = f
         if name in self.regs:
             self.fail('addEvent accepted the name %r which is already scheduled' % (name,))
         if self.in_resched and self.in_resched[0] == name and self.in_resched[1] is not None:
@@ -255,18 +255,21 @@ class Impl(object):
             self.pending_call = (reg.fn[1], reg.args, 'event %r' % (name,))
         elif reg.fn[0] == 'W':
             self.pending_call = (reg.fn[1], reg.fn[4], 'periodic event %r' % (name,))
-            self.expect_recur(reg.fn, 'periodic event %r' % (name,))
+            self.expect_recur(reg.fn, 'periodic event %r' % (name,), reg.fobj)
 
-    def expect_recur(self, fn, what):
+    def expect_recur(self, fn, what, fobj=None):
         """after this wrapper ran: a new occurrence must be registered unless its count ran out"""
         _, idx, period, name, args, count = fn
         again = count is None or count - 1 > 0
-        self.recur_checks.append((again, idx, period, name, args, None if count is None else count - 1, self.clk.t, what))
+        self.recur_checks.append((again, idx, period, name, args, None if count is None else count - 1, self.clk.t, what, fobj))
 
     def check_recur(self):
-        for again, idx, period, name, args, count, when, what in self.recur_checks:
+        for again, idx, period, name, args, count, when, what, fobj in self.recur_checks:
             want_fn = ('W', idx, period, name, args, count)
-            found = [r for r in self.all_new_regs if r.fn == want_fn and r.t == when + period and (name is None or r.name == name)]
+            found = [r for r in self.all_new_regs if r.fn == want_fn and r.t == when + period and (name is None or r.name == name)
+                     and (fobj is None or r.fobj is fobj)]
+            if fobj is None and not again:
+                found = []      # addPeriodicEvent(now=True): the wrapper object is not known; only the positive check
             conflict = name is not None and (name in self.names_at_start or
                                              any(r.name == name and r.fn != want_fn for r in self.all_new_regs))
             if again and not found:
